@@ -20,6 +20,9 @@ Inductive vres :=
        (paths : list (list nat)).
 
 Inductive c10_case :=
+(* FindPath on a layout tree built by hand through the public tree API (siblings may overlap, positions
+   and sizes may be huge): the paths found for every position of a 13 x 13 grid *)
+| CF (t : ltree) (paths : list (list nat))
 | CV (exact : bool) (H W : nat) (vops : list vop) (glyphs : bool) (cwt : list (N * nat)) (ph pw : N) (c : ct) (v : vtree)
      (impl : vres).
 (* exact = false: the tree has flex factors whose f64 arithmetic the model does not reproduce (non-dyadic or
@@ -224,8 +227,36 @@ Definition holds_v (H W : nat) (vops : list vop) (glyphs : bool) (c : ct) (v : v
                     end) (seq 0 (H * W))
   end.
 
+(* specification of hit-testing: at every level the path takes the FIRST child whose rectangle contains
+   the (relative) position, and it ends where no child contains it *)
+Definition contains_b (k : ltree) (r c : N) : bool :=
+  (l_col k <=? c) && (c <? N.min (l_col k + l_ww k) (UMAX + 1)) && (l_row k <=? r) && (r <? N.min (l_row k + l_hh k) (UMAX + 1)).
+
+Fixpoint follows_b (fuel : nat) (t : ltree) (r c : N) (path : list nat) : bool :=
+  match fuel with
+  | O => false
+  | S f =>
+      match path with
+      | [] => forallb (fun k => negb (contains_b k r c)) (l_kids t)
+      | i :: rest =>
+          forallb (fun k => negb (contains_b k r c)) (firstn i (l_kids t))
+          && match nth_error (l_kids t) i with
+             | Some k => contains_b k r c && follows_b f k (r - l_row k) (c - l_col k) rest
+             | None => false
+             end
+      end
+  end.
+
+Definition fgrid : list (N * N) :=
+  flat_map (fun r => map (fun c => (N.of_nat r, N.of_nat c)) (seq 0 13)) (seq 0 13).
+
 Definition c10_check (cs : c10_case) : bool * bool :=
   match cs with
+  | CF t paths =>
+      ( paths_eqb (map (fun q => find_path (depth t) t (fst q) (snd q)) fgrid) paths,
+        (length paths =? length fgrid)%nat
+        && forallb (fun qp : (N * N) * list nat => follows_b (S (depth t)) t (fst (fst qp)) (snd (fst qp)) (snd qp))
+                   (combine fgrid paths) )
   | CV exact H W vops glyphs cwt ph pw c v impl =>
       let vc := mkV (mkCtx glyphs cwt dfa0 []) ph pw in
       ((if exact then vres_eqb (model_v H W vops vc c v) impl else true), holds_v H W vops glyphs c v impl)
